@@ -235,6 +235,10 @@ Definition inside (d : text) (p : pos) : Prop := exists o, boundary d o /\ o2p d
 Definition astral (c : ch) : bool := 65536 <=? c.
 (* the line prefix before offset [o] contains a scalar outside the BMP: scalar count <> UTF-16 count *)
 Definition Known_C19_astral_before (d : text) (o : Z) : bool := existsb astral (last_line (cover d o)).
+(* the line prefix before offset [o] contains a scalar of more than one UTF-8 byte: the terminal
+   column (1-based, in BYTES) is larger than the 1-based character column *)
+Definition multibyte (c : ch) : bool := 1 <? blen c.
+Definition Known_C19_multibyte_before (d : text) (o : Z) : bool := existsb multibyte (last_line (cover d o)).
 (* REPAIRED class (kept for the regression theorem): [start + 1] overflowed usize when the code
    used a plain addition; span_to_range now uses saturating_add *)
 Definition Known_C19_span_start_max (a : Z) : bool := a =? USIZE_MOD - 1.
